@@ -281,6 +281,22 @@ def flatten_concat(t):
     return [t]
 
 
+def eval_str(ctx, m, t):
+    """concrete value of a string term under model m, completing `str::replace` results (ctx.replaced) natively"""
+    if isinstance(t, str):
+        return t
+    out = ""
+    for p in flatten_concat(t):
+        if isinstance(p, str):
+            out += p
+        elif str(p) in getattr(ctx, "replaced", {}):
+            s0, pat, rep = ctx.replaced[str(p)]
+            out += eval_str(ctx, m, s0).replace(pat, rep)
+        else:
+            out += m.str(p)
+    return out
+
+
 def split_first(s, sep):
     """(text before, text after) the first occurrence of sep in s (which must contain it): core string operators only"""
     i = z3.IndexOf(s, z3.StringVal(sep), 0)
@@ -690,8 +706,57 @@ def install(P, max_split=4):
             return s.endswith(p)
         return z3.SuffixOf(S(p), S(s))
 
+    @P.summary("<impl str>::replace")
+    def _replace(ctx, c):
+        """replace all occurrences.  Symbolic: a fresh string e, registered in ctx.replaced[e] = (s, pat, rep) so that
+        consumers can treat it structurally and models can be completed concretely (eval_str); only sound partial facts
+        are asserted about e."""
+        s, p, r = sval(c.args[0]), sval(c.args[1]), sval(c.args[2])
+        if isinstance(s, str) and isinstance(p, str) and isinstance(r, str):
+            return s.replace(p, r)
+        if not (isinstance(p, str) and isinstance(r, str) and p):
+            raise Unsupported("str::replace with a symbolic pattern")
+        e = ctx.fresh("replaced", z3.StringSort())
+        if not hasattr(ctx, "replaced"):
+            ctx.replaced = {}
+        ctx.replaced[str(e)] = (s, p, r)
+        has = z3.Contains(S(s), z3.StringVal(p))
+        facts = [z3.Implies(z3.Not(has), e == S(s)), z3.Implies(has, z3.Contains(e, z3.StringVal(r)) if r else z3.Length(e) < z3.Length(S(s)))]
+        if len(r) >= len(p):
+            facts.append(z3.Length(e) >= z3.Length(S(s)))
+        if p not in r:
+            facts.append(z3.Not(z3.Contains(e, z3.StringVal(p))))
+        ctx.assume(z3.And(facts))
+        return e
+
+    def char_class(pat):
+        """regex of the single characters accepted by a `fn(char) -> bool` pattern"""
+        name = strip_generics(pat.name).split("::")[-1] if isinstance(pat, FnItem) else None
+        if name == "is_whitespace":
+            return ws_re()
+        if name == "is_ascii_whitespace":
+            return z3.Union(*[z3.Re(ch) for ch in " \t\n\r\x0c"])
+        if name == "is_ascii_digit":
+            return z3.Range("0", "9")
+        if name == "is_ascii_uppercase":
+            return z3.Range("A", "Z")
+        if name == "is_ascii_lowercase":
+            return z3.Range("a", "z")
+        if name == "is_ascii_alphabetic":
+            return z3.Union(z3.Range("a", "z"), z3.Range("A", "Z"))
+        if name == "is_ascii_alphanumeric":
+            return z3.Union(z3.Range("a", "z"), z3.Range("A", "Z"), z3.Range("0", "9"))
+        if name == "is_ascii_control":
+            return z3.Union(z3.Range("\x00", "\x1f"), z3.Re("\x7f"))
+        raise Unsupported(f"char predicate pattern {pat!r}")
+
     @P.summary("<impl str>::contains")
     def _contains(ctx, c):
+        pat = deref(c.args[1])
+        if isinstance(pat, (FnItem, Closure)):
+            s = sval(c.args[0])
+            cls = char_class(pat)
+            return z3.InRe(S(s), z3.Concat(z3.Star(z3.AllChar()), cls, z3.Star(z3.AllChar())))
         s, p = sval(c.args[0]), sval(c.args[1])
         if isinstance(s, str) and isinstance(p, str):
             return p in s
